@@ -3,6 +3,8 @@ package engine
 import (
 	"bytes"
 	"context"
+	"encoding/base64"
+	"path"
 	"crypto/sha256"
 	"encoding/hex"
 	"errors"
@@ -201,6 +203,12 @@ var (
 	curRunMu sync.Mutex
 	regOnce  sync.Once
 )
+
+func curRunOrNil() *Run {
+	curRunMu.Lock()
+	defer curRunMu.Unlock()
+	return curRun
+}
 
 func registerDriver() {
 	regOnce.Do(func() {
@@ -702,16 +710,60 @@ func RunTsim(scn *Scenario) *Run {
 		}
 		r.rt = rt
 		r.Sim.Event(g, "open", scn.Backend)
+		var cwg sync.WaitGroup
 		for ci := range scn.Clients {
 			wg.Add(1)
-			go r.client(ci, &wg)
+			cwg.Add(1)
+			go func() {
+				defer cwg.Done()
+				r.client(ci, &scn.Clients[ci], "c"+strconv.Itoa(ci+1), &wg)
+			}()
+		}
+		if len(scn.Clients2) == 0 {
+			return
+		}
+		// second incarnation: after the first one ended (or was killed) a new transport is opened on what
+		// the backing store holds now
+		cwg.Wait()
+		if r.Sim.Aborted() {
+			return
+		}
+		r.Sim.Adopt(g)
+		g = r.Sim.Yield("restart")
+		if r.Sim.Aborted() {
+			return
+		}
+		if scn.Backend == "mem" {
+			return
+		}
+		rt2, perr2 := r.openTransport()
+		g = r.Sim.Yield("restart-done")
+		if r.Sim.Aborted() {
+			return
+		}
+		if perr2 != "" {
+			r.Sim.Event(g, "open.panic", perr2)
+			r.mu.Lock()
+			r.clientsDone = len(scn.Clients) + len(scn.Clients2)
+			r.mu.Unlock()
+			return
+		}
+		r.mu.Lock()
+		r.rt = rt2
+		r.Restarts++
+		r.clientsDone = len(scn.Clients) // killed clients count as done
+		r.mu.Unlock()
+		r.Sim.Event(g, "reopen", fmt.Sprintf("crashes=%d", r.Crashes))
+		for ci := range scn.Clients2 {
+			wg.Add(1)
+			go r.client(len(scn.Clients)+ci, &scn.Clients2[ci], "d"+strconv.Itoa(ci+1), &wg)
 		}
 	}()
 	<-started
 	r.Sim.Run(func() bool {
 		r.mu.Lock()
 		defer r.mu.Unlock()
-		return r.clientsDone >= len(scn.Clients)
+		return r.clientsDone >= len(scn.Clients)+len(scn.Clients2) || (scn.Backend == "mem" && r.clientsDone >= len(scn.Clients))
 	}, drainSpan)
 	r.VirtSpan = r.Sim.Now()
 	for _, e := range r.Exchs {
@@ -805,16 +857,14 @@ func snapReq(req *http.Request) ReqSnap {
 	return s
 }
 
-func (r *Run) client(ci int, wg *sync.WaitGroup) {
+func (r *Run) client(ci int, cl *Client, name string, wg *sync.WaitGroup) {
 	defer wg.Done()
-	name := "c" + strconv.Itoa(ci+1)
 	g := r.Sim.Register(name)
 	defer func() {
 		r.mu.Lock()
 		r.clientsDone++
 		r.mu.Unlock()
 	}()
-	cl := &r.Scn.Clients[ci]
 	for oi := range cl.Ops {
 		op := &cl.Ops[oi]
 		g.SetOp(oi)
@@ -886,7 +936,13 @@ func (r *Run) admin(g *kit.Gor, op *Op) {
 			return b
 		})
 		r.fired("disk.at-rest-corruption")
-		r.Sim.Event(g, "admin.corrupt", fmt.Sprintf("%s mode=%d", p, arg%3))
+		seq := r.Sim.Event(g, "admin.corrupt", fmt.Sprintf("%s mode=%d", p, arg%3))
+		// which key lives in that file (flat names are base64url of the key); unknown layouts are simply not attributed
+		if kb, err := base64.RawURLEncoding.DecodeString(path.Base(p)); err == nil {
+			r.mu.Lock()
+			r.Corrupted = append(r.Corrupted, corruptRec{Path: p, Key: string(kb), Seq: seq})
+			r.mu.Unlock()
+		}
 	}
 }
 
